@@ -6,7 +6,8 @@ COMMON_ASSUMPTIONS = [
     "pyvc symbolic executor and its model of Python semantics (DESIGN.md 2.3): mathematical integers, bit-vector encoding with interval-checked no-overflow, byte strings shorter than 2^40",
     "z3 4.x/5.x soundness",
     "closed world: classes and methods as defined in /repo (no monkey patching, no subclass overrides outside /repo)",
-    "logging calls (_LOGGER.*) are dropped together with the evaluation of their arguments",
+    "logging calls (_LOGGER.*): the arguments are evaluated (an argument outside the supported subset is dropped and listed as log-argument-not-evaluated); the logging module may or may not format them, "
+    "so an argument whose __str__/__repr__ has effects is explored both ways; `if` arms and loop bodies that only log are not entered",
 ]
 
 C12_TARGETS = [
